@@ -212,6 +212,83 @@ func (vc *VC) script(ob *Obligation, opts scriptOpts) string {
 	for _, r := range roots {
 		dfs(r)
 	}
+	// relevance pruning: drop assumptions that share no program constant (transitively) with the goal.
+	// Dropping hypotheses is sound for validity; it keeps scripts of long functions small.
+	relevant := func(string) bool { return true }
+	if !opts.noPrune {
+		var facts []string
+		for _, n := range order {
+			last := len(n.Stmts) - 1
+			if n == target {
+				last = ob.index - 1
+			}
+			for i := 0; i <= last; i++ {
+				facts = append(facts, n.Stmts[i].F)
+			}
+			for _, e := range n.Succ {
+				if anc[e.To] {
+					facts = append(facts, e.Cond)
+					facts = append(facts, e.Assumes...)
+				}
+			}
+		}
+		facts = append(facts, vc.axioms...)
+		rel := map[string]bool{}
+		for id := range constIdents(target.Stmts[ob.index].F) {
+			rel[id] = true
+		}
+		idsOf := make([]map[string]bool, len(facts))
+		for i, f := range facts {
+			idsOf[i] = constIdents(f)
+			if opts.pruneAlloc {
+				for id := range idsOf[i] {
+					if strings.Contains(id, "alloc") {
+						delete(idsOf[i], id)
+					}
+				}
+			}
+		}
+		used := make([]bool, len(facts))
+		round := 0
+		for changed := true; changed; {
+			changed = false
+			round++
+			if opts.rounds > 0 && round > opts.rounds {
+				break
+			}
+			// breadth-first: facts hit in this round only contribute their symbols for the next round
+			var newIDs []string
+			for i := range facts {
+				if used[i] {
+					continue
+				}
+				hit := false
+				for id := range idsOf[i] {
+					if rel[id] {
+						hit = true
+						break
+					}
+				}
+				if hit {
+					used[i] = true
+					changed = true
+					for id := range idsOf[i] {
+						newIDs = append(newIDs, id)
+					}
+				}
+			}
+			for _, id := range newIDs {
+				rel[id] = true
+			}
+		}
+		keep := map[string]bool{}
+		for i, f := range facts {
+			if used[i] || len(idsOf[i]) == 0 {
+				keep[f] = true
+			}
+		}
+		relevant = func(f string) bool { return keep[f] }
+	}
 	var body strings.Builder
 	for _, n := range order {
 		// build wp backwards through the statements
@@ -225,7 +302,13 @@ func (vc *VC) script(ob *Obligation, opts scriptOpts) string {
 					continue
 				}
 				inner := fmt.Sprintf("ok_%d", e.To.ID)
-				as := mkAnd(append([]string{e.Cond}, e.Assumes...)...)
+				var parts []string
+				for _, a := range append([]string{e.Cond}, e.Assumes...) {
+					if relevant(a) {
+						parts = append(parts, a)
+					}
+				}
+				as := mkAnd(parts...)
 				conj = append(conj, mkImp(as, inner))
 			}
 			post = mkAnd(conj...)
@@ -248,7 +331,9 @@ func (vc *VC) script(ob *Obligation, opts scriptOpts) string {
 			if st.Kind == stAssert && st.Ob != nil && st.Ob.Expect == "sat" {
 				continue // cover points assume nothing
 			}
-			post = mkImp(st.F, post)
+			if relevant(st.F) {
+				post = mkImp(st.F, post)
+			}
 		}
 		fmt.Fprintf(&body, "(define-fun ok_%d () Bool %s)\n", n.ID, post)
 	}
@@ -297,8 +382,10 @@ func (vc *VC) script(ob *Obligation, opts scriptOpts) string {
 	out.WriteString(vc.ss.datatypeDecls(func(name string) bool { return usedAll[name] || usedAll["mk_"+name] || accessorUsed(vc.ss, name, usedAll) }))
 	// string literal constants
 	var lits []string
-	for i, v := range vc.ss.strList {
-		c := fmt.Sprintf("strlit_%d", i)
+	strs := append([]string{}, vc.ss.strList...)
+	sort.Strings(strs)
+	for _, v := range strs {
+		c := vc.ss.strLits[v]
 		if usedAll[c] || v == "" {
 			lits = append(lits, c)
 			fmt.Fprintf(&out, "(declare-const %s Str) ; %q\n(assert (= (u_slen %s) %d))\n", c, trunc(v, 60), c, len(v))
@@ -316,7 +403,7 @@ func (vc *VC) script(ob *Obligation, opts scriptOpts) string {
 	out.WriteString(declText)
 	if axtext != "" {
 		for _, a := range vc.axioms {
-			if axiomRelevant(a, usedAll) {
+			if axiomRelevant(a, usedAll) && relevant(a) {
 				fmt.Fprintf(&out, "(assert %s)\n", a)
 			}
 		}
@@ -333,6 +420,9 @@ func (vc *VC) script(ob *Obligation, opts scriptOpts) string {
 }
 
 type scriptOpts struct {
+	noPrune bool
+	pruneAlloc bool // do not let allocation-counter constants link facts together
+	rounds     int  // relevance closure depth (0 = transitive closure)
 	cvc5  bool
 	model bool
 	seed  int
@@ -386,6 +476,17 @@ func identSet(s string) map[string]bool {
 		} else if start >= 0 {
 			m[s[start:i]] = true
 			start = -1
+		}
+	}
+	return m
+}
+
+// constIdents: program constants (v_...) mentioned in a formula.
+func constIdents(s string) map[string]bool {
+	m := map[string]bool{}
+	for id := range identSet(s) {
+		if strings.HasPrefix(id, "v_") {
+			m[id] = true
 		}
 	}
 	return m
